@@ -77,9 +77,21 @@ def check_resume_result(rep, rid, core, fns):
                             cont = (sb, b)
                     if cont and all(p_ not in f.reachable([rb], removed_edges=[cont]) for p_ in pr):
                         ok = True
-        elif not pr:
-            # the function returns the result of resume; the caller must run the core only on Ok — not modelled: fail closed
-            ok = False
+        elif not branch:
+            # `resume(id, data).map(|()| self.core.process())` / `.and_then(..)`: the combinator calls its closure on Ok only. The result of
+            # resume must be the receiver of exactly that combinator, the core run must be inside the closure given to it, and no other run
+            # of the core may be reachable after resume in the function itself
+            combs = [(bb, t) for bb, t in f.calls('core::result::Result::map', 'core::result::Result::and_then')
+                     if t['args'] and (lambda os_: bool(os_) and all(o.kind == 'call' and o.bb == rb for o in os_))(origins(f, t['args'][0]))]
+            inside = False
+            for bb, t in combs:
+                for x in origins(f, t['args'][1]) if len(t['args']) > 1 else []:
+                    if x.kind == 'agg' and x.stmt['rv'].get('ak') == 'closure':
+                        g_ = core.by_exact(x.stmt['rv']['def'])
+                        if g_ is not None and (list(g_.calls('crux_core::core::Core::process')) or sm0.sites(g_, ['crux_core::core::Core::process'], 'may')):
+                            inside = True
+            after = f.reachable_after(rb)
+            ok = len(combs) == 1 and inside and not any(p_ in after for p_ in pr)
     rep.expect(rid, ok, 'process-after-ok-resume', 'Core::process is reachable from resume only along the Ok edge of `?`',
                'the bridge runs the core although resume returned an error')
 
